@@ -11,8 +11,10 @@ import (
 	"hash/fnv"
 	"os"
 	"path/filepath"
+	"runtime"
 	"sort"
 	"strconv"
+	"strings"
 	"sync"
 	"testing"
 	"time"
@@ -270,7 +272,7 @@ func Run[C any](t *testing.T, r *Rec, gen func(*rapid.T) C, oracle func(C) Verdi
 		return
 	}
 	rapid.Check(t, func(rt *rapid.T) {
-		c := gen(rt)
+		c := safeGen(r, rt, gen)
 		r.trace(c)
 		v := SafeOracle(oracle, c)
 		r.Case(c, v)
@@ -341,4 +343,30 @@ func (r *Rec) Watchdog(c interface{}, what string, d time.Duration) (stop func()
 		}
 	}()
 	return func() { close(ch) }
+}
+
+// safeGen: a panic inside a generator is a bug in the harness, never a verdict about the
+// code under test. It is recorded in a marker file that makes the driver exit 2.
+func safeGen[C any](r *Rec, rt *rapid.T, gen func(*rapid.T) C) C {
+	defer func() {
+		if e := recover(); e != nil {
+			if isRapidControl(e) {
+				panic(e)
+			}
+			if r.out != "" {
+				buf := make([]byte, 8192)
+				buf = buf[:runtime.Stack(buf, false)]
+				_ = os.WriteFile(filepath.Join(r.out, fmt.Sprintf("harnessbug-%s-%s.txt", r.Test, r.shard)),
+					[]byte(fmt.Sprintf("generator panicked: %v\n%s", e, buf)), 0644)
+			}
+			panic(e)
+		}
+	}()
+	return gen(rt)
+}
+
+// rapid signals Skip/Fatal/invalid data with its own panic values; let them through.
+func isRapidControl(e interface{}) bool {
+	s := fmt.Sprintf("%T", e)
+	return strings.HasPrefix(s, "rapid.") || strings.HasPrefix(s, "*rapid.")
 }
